@@ -8,13 +8,19 @@
 EXTENDS Cluster, Json
 
 CONSTANTS MaxLen, WithBad, WithDup, GenDepth, Sim, Mixed, Burst,
+          WithSplit, \* rows may have a node-to-node address (peer) that differs from the connect address
+          LateEvents,\* enumerated histories end with one status event for any address (also addresses
+                     \* of nodes that have just vanished or moved)
           Ordered    \* FALSE: events travel as frames, each handled on a goroutine of its own - a batch then
                      \* holds at most one status per address (their order of arrival is not defined)
 
 VARIABLE hist
 gvars == <<truth, g, d, nref, hist>>
 
-RowSet == [id : Ids, addr : Addrs, inv : IF WithBad THEN {"ok", "bad"} ELSE {"ok"}]
+RowSet == {r \in [id : Ids, addr : Addrs, peer : EventAddrs, inv : IF WithBad THEN {"ok", "bad"} ELSE {"ok"}] :
+             r.peer = r.addr \/ (WithSplit /\ r.peer = Priv(r.addr))}
+\* addresses events may name
+EvA == IF WithSplit THEN EventAddrs ELSE AllAddrs \cup {C0peer}
 \* system.peers is keyed by the peer address: rows have distinct addresses
 GoodList(s) ==
   /\ \A j, k \in 1 .. Len(s) : j < k => s[j].addr # s[k].addr
@@ -27,17 +33,17 @@ CanonAddrs == <<"a1", "a2", "a3", "a4">>
 
 RECURSIVE SeqOf(_)
 SeqOf(S) == IF S = {} THEN <<>> ELSE LET x == CHOOSE y \in S : TRUE IN <<x>> \o SeqOf(S \ {x})
-SeqOfAddrs == SeqOf(AllAddrs)
+SeqOfAddrs == SeqOf(EvA)
 
 Ev(k, a) == [kind |-> k, addr |-> a]
 StatusBatches ==
-  {<<Ev(k, a)>> : k \in {"UP", "DOWN"}, a \in AllAddrs}
-  \cup (IF Ordered THEN {<<Ev("UP", a), Ev("DOWN", a)>> : a \in AllAddrs} \cup {<<Ev("DOWN", a), Ev("UP", a)>> : a \in AllAddrs}
-        ELSE {<<Ev("UP", p[1]), Ev("DOWN", p[2])>> : p \in {x \in AllAddrs \X AllAddrs : x[1] # x[2]}})
+  {<<Ev(k, a)>> : k \in {"UP", "DOWN"}, a \in EvA}
+  \cup (IF Ordered THEN {<<Ev("UP", a), Ev("DOWN", a)>> : a \in EvA} \cup {<<Ev("DOWN", a), Ev("UP", a)>> : a \in EvA}
+        ELSE {<<Ev("UP", p[1]), Ev("DOWN", p[2])>> : p \in {x \in EvA \X EvA : x[1] # x[2]}})
 TopoBatches ==
-  {<<Ev(k, a)>> : k \in {"NEW_NODE", "REMOVED_NODE"}, a \in AllAddrs}
-  \cup {<<Ev("NEW_NODE", a), Ev(k, a)>> : k \in {"UP", "DOWN"}, a \in AllAddrs}
-  \cup {<<Ev("DOWN", a), Ev("REMOVED_NODE", a)>> : a \in AllAddrs}
+  {<<Ev(k, a)>> : k \in {"NEW_NODE", "REMOVED_NODE"}, a \in EvA}
+  \cup {<<Ev("NEW_NODE", a), Ev(k, a)>> : k \in {"UP", "DOWN"}, a \in EvA}
+  \cup {<<Ev("DOWN", a), Ev("REMOVED_NODE", a)>> : a \in EvA}
 
 \* a burst: Burst events in a row, all kinds, all addresses (0: no bursts)
 AddrSeq == SeqOfAddrs
@@ -52,10 +58,10 @@ BurstAt(o) ==
 \* concrete kinds of invalid rows, rotated with the position in the history
 BadKinds == <<"notokens", "norack", "nodc", "norpc", "nohostid">>
 Concrete(rows, n) ==
-  [k \in 1 .. Len(rows) |-> [id |-> rows[k].id, addr |-> rows[k].addr,
+  [k \in 1 .. Len(rows) |-> [id |-> rows[k].id, addr |-> rows[k].addr, peer |-> rows[k].peer,
                               inv |-> IF rows[k].inv = "ok" THEN "ok" ELSE BadKinds[((n + k) % 5) + 1]]]
 
-Pairs(f) == {[id |-> i, addr |-> f[i]] : i \in DOMAIN f}
+Pairs(f) == {[id |-> i, addr |-> f[i].addr, n2n |-> f[i].n2n] : i \in DOMAIN f}
 RevPairs(f) == {[id |-> f[a], addr |-> a] : a \in DOMAIN f}
 Exp(dd, n) == [hosts |-> Pairs(dd.hosts), byaddr |-> RevPairs(dd.byAddr), pool |-> dd.pool, pol |-> dd.pol,
                down |-> dd.down, refreshes |-> n]
@@ -83,21 +89,22 @@ PickList ==
 
 \* ids and addresses are interchangeable: the first step of an enumerated history uses
 \* canonical lists (i1 at a1, i2 at a2, ...) and the first peer address only
-CanonLists == {[k \in 1 .. n |-> [id |-> CanonIds[k], addr |-> CanonAddrs[k], inv |-> "ok"]] : n \in 0 .. MaxLen}
+CanonLists == {s \in Lists : \A k \in 1 .. Len(s) : s[k].id = CanonIds[k] /\ s[k].addr = CanonAddrs[k] /\ s[k].inv = "ok"}
 L0 == IF Len(hist) = 0 /\ ~Sim THEN CanonLists ELSE Lists
 A0 == IF Len(hist) = 0 /\ ~Sim THEN {C0addr, CanonAddrs[1]} ELSE AllAddrs
+E0 == IF Len(hist) = 0 /\ ~Sim THEN {C0addr, C0peer, CanonAddrs[1], Priv(CanonAddrs[1])} \cap EvA ELSE EvA
 \* a list that differs from the current truth (for refreshes that fail: nothing of it may be applied)
-Other == IF truth = <<>> THEN <<[id |-> CanonIds[1], addr |-> CanonAddrs[1], inv |-> "ok"]>> ELSE <<>>
+Other == IF truth = <<>> THEN <<[id |-> CanonIds[1], addr |-> CanonAddrs[1], peer |-> CanonAddrs[1], inv |-> "ok"]>> ELSE <<>>
 
 RefreshSteps == \E l \in (IF Sim THEN PickList ELSE L0) : Refresh(l, "none") /\ Rec("refresh", l, "none", <<>>, "")
 
 MixedSteps ==
   \/ \E f \in Pick({"local", "peers"}) : Refresh(Other, f) /\ Rec("refresh", Other, f, <<>>, "")
-  \/ \E b \in Pick({x \in StatusBatches : x[1].addr \in A0}) : Events(truth, b) /\ Rec("events", truth, "none", b, "")
+  \/ \E b \in Pick({x \in StatusBatches : x[1].addr \in E0}) : Events(truth, b) /\ Rec("events", truth, "none", b, "")
   \/ \E b \in Pick({<<Ev("NEW_NODE", CanonAddrs[1])>>}) : \E l \in (IF Sim THEN PickList ELSE L0) : Events(l, b) /\ Rec("events", l, "none", b, "")
-  \/ \E b \in Pick({x \in TopoBatches : x[1].addr \in A0 /\ (Sim \/ x # <<Ev("NEW_NODE", CanonAddrs[1])>>)}) :
+  \/ \E b \in Pick({x \in TopoBatches : x[1].addr \in E0 /\ (Sim \/ x # <<Ev("NEW_NODE", CanonAddrs[1])>>)}) :
         \E l \in (IF Sim THEN PickList ELSE {truth}) : Events(l, b) /\ Rec("events", l, "none", b, "")
-  \/ Sim /\ \E b \in Pick({<<Ev("UP", a)>> : a \in Addrs}) : \E l \in PickList : Events(l, b) /\ Rec("events", l, "none", b, "")
+  \/ Sim /\ \E b \in Pick({<<Ev("UP", a)>> : a \in EvA}) : \E l \in PickList : Events(l, b) /\ Rec("events", l, "none", b, "")
   \/ Burst > 0 /\ \E o \in Pick(0 .. 4) : \E l \in (IF Sim THEN PickList ELSE {truth}) :
         Events(l, BurstAt(o)) /\ Rec("burst", l, "none", BurstAt(o), "")
   \/ \E a \in Pick(A0) : NodeFail(truth, a) /\ Rec("nodefail", truth, "none", <<>>, a)
@@ -105,10 +112,14 @@ MixedSteps ==
   \/ \E l \in (IF Sim THEN PickList ELSE {truth, Other}) : NodeRecover(l, C0addr) /\ Rec("noderecover", l, "none", <<>>, C0addr)
   \/ \E l \in (IF Sim THEN PickList ELSE {truth, Other}) : ControlLost(l) /\ Rec("ctllost", l, "none", <<>>, "")
 
+\* the last step of an enumerated history with late events: one status event, any address
+LateSteps == \E b \in {<<Ev(k, a)>> : k \in {"UP", "DOWN"}, a \in EvA} : Events(truth, b) /\ Rec("events", truth, "none", b, "")
+
 Next ==
   /\ Len(hist) < GenDepth
-  /\ \/ RefreshSteps
-     \/ Mixed /\ MixedSteps
+  /\ IF LateEvents /\ ~Sim /\ Len(hist) = GenDepth - 1 THEN LateSteps
+     ELSE \/ RefreshSteps
+          \/ Mixed /\ MixedSteps
 
 Spec == Init /\ [][Next]_gvars
 
